@@ -535,6 +535,16 @@ func (c *c17ctx) schemaBlock() {
 				return fmt.Errorf("column %d has %d rows after a zero-row block", i, tc.Column().Rows())
 			}
 		}
+		// Read without targets (empty Results, nil): the header is skipped exactly, flag bytes included.
+		for _, tgt := range []proto.Result{&proto.Results{}, nil} {
+			var g0 proto.Block
+			if err := decodeExact(b.Buf, false, func(r *proto.Reader) error { return g0.DecodeBlock(r, rev, tgt) }); err != nil {
+				return fmt.Errorf("zero-row block %v read without targets (%T): %w", typeNames(cols), tgt, err)
+			}
+			if g0.Columns != len(cols) || g0.Rows != 0 {
+				return fmt.Errorf("zero-row block read without targets decoded as %d columns x %d rows", g0.Columns, g0.Rows)
+			}
+		}
 		// The same header inside a compressed frame, read the way the client reads the block
 		// of a Data packet on a compressed connection (every field through the decompressor).
 		{
